@@ -6,7 +6,7 @@
 use std::mem::{drop as unlock, take};
 use std::os::fd::{AsRawFd, OwnedFd, RawFd};
 use std::sync::Mutex;
-use std::sync::atomic::{AtomicU32, Ordering};
+use std::sync::atomic::{AtomicBool, AtomicU32, Ordering};
 use std::time::Duration;
 use std::{ptr, task};
 
@@ -70,6 +70,10 @@ pub(crate) struct Shared {
     submissions: ptr::NonNull<sq::Submission>,
     /// Lock to submit the next submission.
     submissions_lock: Mutex<()>,
+    /// Set, while holding `submissions_lock`, once the `Ring` is dropped.
+    /// After that nothing will submit the submissions to the kernel any more,
+    /// so no new submissions are accepted.
+    ring_dropped: AtomicBool,
     // Fixed values that don't change after the setup.
     /// Length of [`Shared::submissions`].
     submissions_len: u32,
@@ -129,6 +133,7 @@ impl Shared {
             },
             submissions: submissions_ptr.cast(),
             submissions_lock: Mutex::new(()),
+            ring_dropped: AtomicBool::new(false),
             submissions_len: parameters.sq_entries,
             kernel_thread: (parameters.flags & libc::IORING_SETUP_SQPOLL) != 0,
             single_issuer: (parameters.flags & libc::IORING_SETUP_SINGLE_ISSUER) != 0,
